@@ -67,6 +67,8 @@ extern int mpt_notify_wait(MPT_STRUCT(notify) *no, int what, int timeout)
 			if (!(ret = what & epv[i].events)) {
 				continue;
 			}
+			/* slot data may have moved: an input can add further inputs */
+			pslot = (void *) (no->_slot._buf + 1);
 			if (!(curr = pslot[epv[i].data.fd])) {
 				continue;
 			}
@@ -110,6 +112,8 @@ extern int mpt_notify_wait(MPT_STRUCT(notify) *no, int what, int timeout)
 		if (!(ret = ev[i].revents & what)) {
 			continue;
 		}
+		/* slot data may have moved: an input can add further inputs */
+		pslot = (void *) (no->_slot._buf + 1);
 		if (!(curr = pslot[ev[i].fd])) {
 			continue;
 		}
